@@ -67,6 +67,11 @@ def _cy_expr(e):
         return ('not', _cy_expr(e.operand))
     if isinstance(e, E.UnaryMinusNode):
         return ('neg', _cy_expr(e.operand))
+    if t in ('IntBinopNode', 'NumBinopNode', 'AddNode', 'SubNode') and getattr(
+            e, 'operator', None) in ('|', '&', '^'):
+        return ('binop', e.operator, _cy_expr(e.operand1), _cy_expr(e.operand2))
+    if t == 'TildeNode':
+        return ('invert', _cy_expr(e.operand))
     if t == 'JoinedStrNode' or t == 'FormattedValueNode':
         return ('str', '<f-string>')
     if isinstance(e, E.TypecastNode):
@@ -254,6 +259,16 @@ def cy_apply_ir(path, cls='BDD'):
             src = '\n'.join(text.split('\n')[first - 1:last])
             return ir, src, c
     raise KeyError('apply not found in ' + path)
+
+
+def cy_method_irs(path, cls='Function'):
+    """-> {method name: IR} for every method of class `cls`."""
+    tree, text = cy_parse(path)
+    out = {}
+    for c, name, node in cy_functions(tree):
+        if c == cls:
+            out[name] = _cy_stats(node.body)
+    return out
 
 
 def _last_line(node):
@@ -446,6 +461,35 @@ class Interp:
         self.voc = vocabulary_names or {}
         self.sibling = sibling
         self.uninterpreted = []
+        self.methods = {}       # IR of the methods of the wrapper's Function class
+        self.apply_ir = None    # IR of the wrapper's apply (for methods that delegate to it)
+        self.depth = 0
+
+    BINOPS = {'|': '__or__', '&': '__and__', '^': '__xor__'}
+
+    def run_method(self, name, u, v=None):
+        """Run Function.<name> with self = u, other = v.  -> mask, or a Python bool."""
+        if name not in self.methods:
+            raise Uninterpreted('no method ' + name)
+        self.depth += 1
+        try:
+            if self.depth > 6:
+                raise Uninterpreted('method recursion')
+            env = dict(self=u if isinstance(u, Handle) else Handle(u), mgr=_MGR)
+            if v is not None:
+                env['other'] = v if isinstance(v, Handle) else Handle(v)
+            r = self._block(self.methods[name], env)
+        finally:
+            self.depth -= 1
+        if r is _FALL:
+            raise Uninterpreted('method fell off the end')
+        if isinstance(r, (Handle, Node)):
+            return self._mask(r)
+        if r is _UNKNOWN_FALSE:
+            return False
+        if isinstance(r, (bool, int)):
+            return bool(r)
+        raise Uninterpreted('method result %r' % (r,))
 
     def run(self, ir, op, u, v, w):
         """-> mask result; raises Rejected / Uninterpreted."""
@@ -540,6 +584,10 @@ class Interp:
             if obj is _MGR:
                 if a in ('manager',):
                     return _MGR
+                if a == 'true':
+                    return Handle(F)
+                if a == 'false':
+                    return Handle(0)
                 return ('method', a)
             if isinstance(obj, tuple) and obj[0] == 'fn':
                 # module attribute: sy.sylvan_and, buddy.bdd_and, _utils.assert_operator_arity
@@ -551,6 +599,16 @@ class Interp:
             if obj is None:
                 return _UNKNOWN_FALSE
             raise Uninterpreted('attribute %s of %r' % (a, obj))
+        if k == 'binop' or k == 'invert':
+            a = self._eval(e[2] if k == 'binop' else e[1], env)
+            if not isinstance(a, Handle):
+                raise Uninterpreted('operator on %r' % (a,))
+            if k == 'invert':
+                return Handle(self.run_method('__invert__', a))
+            b = self._eval(e[3], env)
+            if not isinstance(b, Handle):
+                raise Uninterpreted('operator on %r' % (b,))
+            return Handle(self.run_method(self.BINOPS[e[1]], a, b))
         if k == 'neg':
             x = self._eval(e[1], env)
             if isinstance(x, Node):
@@ -586,6 +644,9 @@ class Interp:
                 else:
                     raise Uninterpreted('membership in %r' % (b,))
                 return res if op == 'in' else not res
+            if op in ('==', '!=') and isinstance(a, Handle) and isinstance(b, Handle):
+                # comparison of two Functions: the class's own __eq__ / __ne__
+                return self.run_method('__eq__' if op == '==' else '__ne__', a, b)
             if op in ('is', 'is_not', '==', '!='):
                 if a is _MGR or b is _MGR:
                     same = True         # manager identity guards: same manager
@@ -627,6 +688,11 @@ class Interp:
             except ValueError:
                 raise Rejected('arity')
             return None
+        if name == 'apply' and f[0] == 'method' and self.apply_ir is not None:
+            ops = [a for a in args if a is not _MGR]
+            vs = [x.node.mask if isinstance(x, Handle) else x for x in ops[1:]]
+            vs += [None] * (3 - len(vs))
+            return Handle(self.run(self.apply_ir, ops[0], vs[0], vs[1], vs[2]))
         if name in ('wrap', 'Function'):
             return Handle(vals[-1] if name == 'wrap' else vals[0])
         if name == 'abs':
@@ -667,6 +733,7 @@ _UNKNOWN_FALSE = _Fall()
 REF = {'Cudd_Ref', 'cuddRef', 'sylvan_ref', 'bdd_addref'}
 DEREF = {'Cudd_RecursiveDeref', 'Cudd_RecursiveDerefZdd', 'Cudd_Deref', 'cuddDeref',
          'sylvan_deref', 'bdd_delref', 'Cudd_IterDerefBdd'}
+SHALLOW_DEREF = {'cuddDeref', 'Cudd_Deref'}
 OWNED = {'Dddmp_cuddBddLoad'}      # return a node that already carries a reference
 METHOD_REF = {'_incref': +1, '_decref': -1}    # self._incref(x) / self._decref(x, ...)
 
@@ -799,6 +866,10 @@ class RefPaths:
             elif f in self.DEREF and c.args:
                 a = _etext(c.args[-1])
                 led[a] = led.get(a, 0) - 1
+                if f in SHALLOW_DEREF:
+                    # releases the node WITHOUT releasing its successors when the count reaches
+                    # zero: legitimate only for handing a floating result back to the caller
+                    led['<shallow>' + a] = 1
         # owned results:  x = OWNED(...)
         if isinstance(st, Nodes.SingleAssignmentNode) and isinstance(
                 st.rhs, ExprNodes.SimpleCallNode) and _fname(st.rhs) in OWNED:
@@ -852,6 +923,10 @@ class RefPaths:
             if t == 'ReturnStatNode' and st.value is not None:
                 detail = _etext(st.value) if not isinstance(
                     st.value, ExprNodes.SimpleCallNode) else 'call:' + str(_fname(st.value))
+                if isinstance(st.value, ExprNodes.SimpleCallNode):
+                    # the values handed to the call that produces the result
+                    l = dict(l)
+                    l['<returned-through>'] = tuple(_etext(a) for a in st.value.args)
             if t == 'RaiseStatNode' and st.exc_type is not None:
                 x = st.exc_type
                 if isinstance(x, ExprNodes.SimpleCallNode):
@@ -982,3 +1057,33 @@ def wrap_discipline(path):
                     bad.append((line, n))
             return True, bad, len(exits)
     return False, [], 0
+
+
+def temporary_node_uses(path):
+    """Assignments `x = <call>(...).node` (also under casts): the Function produced by the call
+    is a temporary that is disposed of (giving its library reference back) at the end of the
+    statement, while the raw node stored in x is used afterwards without any reference.
+    -> (list of (cls, function, line, text), number of assignments inspected)"""
+    tree, text = cy_parse(path)
+    src = text.split('\n')
+    out = []
+    seen = [0]
+    for cls, name, node in cy_functions(tree):
+        def strip(r):
+            while isinstance(r, ExprNodes.TypecastNode):
+                r = r.operand
+            return r
+
+        class V(TreeVisitor):
+            def visit_Node(s, n):
+                s.visitchildren(n)
+
+            def visit_SingleAssignmentNode(s, n):
+                seen[0] += 1
+                r = strip(n.rhs)
+                if isinstance(r, ExprNodes.AttributeNode) and r.attribute == 'node' and isinstance(
+                        strip(r.obj), (ExprNodes.SimpleCallNode, ExprNodes.GeneralCallNode)):
+                    out.append((cls, name, n.pos[1], src[n.pos[1] - 1].strip()))
+                s.visitchildren(n)
+        V().visit(node.body)
+    return out, seen[0]
